@@ -65,8 +65,9 @@ PROPS = {
         trusted=[],
     ),
     "C14": dict(
-        lean_modules=["Liftbridge.Props.C14"],
-        gen_sources=["server/protocol/envelope.go"],
+        # Props.GoEnvelope: the model's Envelope.check = the translated body of checkEnvelope, for every byte string
+        lean_modules=["Liftbridge.Props.C14", "Liftbridge.Props.GoEnvelope"],
+        gen_sources=["server/protocol/envelope.go", "server/protocol/envelope.go:gomini:checkEnvelope"],
         runs=[dict(go_pkg="./server/protocol", test="TestVerifC14"), dict(go_pkg="./server", test="TestVerifC14Server")],
         level="proof",
         assumptions=[
